@@ -69,6 +69,8 @@ type Harness struct {
 	bounds   map[string]int
 	wall     time.Duration
 	asserts  map[string]int // label -> discharged count
+	natSamples []*Failure   // selftest: models of completed paths to be run natively
+	natNext    int
 }
 
 func newHarness(name string, fn *ssa.Function) *Harness {
@@ -114,7 +116,52 @@ func (in *Interp) decide(d Decision, why string) Decision {
 func isBr(k byte) bool { return k == 'B' || k == 'F' }
 
 func (in *Interp) check(extra *Term, vars []*Term) (SatResult, map[*Term]uint64) {
-	return in.w.solver.Check(in.pc, extra, vars)
+	r, m := in.w.solver.Check(in.pc, extra, vars)
+	w := in.w
+	if len(w.xsolvers) > 0 {
+		w.xcount++
+		if w.xcount%w.pool.xEvery == 0 {
+			for _, xs := range w.xsolvers {
+				r2, _ := xs.Check(in.pc, extra, nil)
+				w.pool.xRecord(xs.name, r, r2, in.harness.Name, in.where(in.cur))
+			}
+		}
+	}
+	return r, m
+}
+
+// xRecord tallies one cross-solver comparison (selftest: the same query decided by a second solver).
+func (p *Pool) xRecord(name string, r, r2 SatResult, harness, where string) {
+	p.mu.Lock()
+	defer p.mu.Unlock()
+	if p.xStats == nil {
+		p.xStats = map[string]*xStat{}
+	}
+	st := p.xStats[name]
+	if st == nil {
+		st = &xStat{}
+		p.xStats[name] = st
+	}
+	st.Compared++
+	switch {
+	case r == Unknown || r2 == Unknown:
+		st.Unknown++
+	case r == r2:
+		st.Agree++
+	default:
+		st.Disagree++
+		if len(st.Examples) < 5 {
+			st.Examples = append(st.Examples, fmt.Sprintf("%s at %s: primary=%s %s=%s", harness, where, r, name, r2))
+		}
+	}
+}
+
+type xStat struct {
+	Compared int      `json:"compared"`
+	Agree    int      `json:"agree"`
+	Unknown  int      `json:"either_unknown"`
+	Disagree int      `json:"disagree"`
+	Examples []string `json:"disagreements,omitempty"`
 }
 
 // ---------- model cache (counterexample cache): models known to satisfy a prefix of the PC ----------
@@ -424,6 +471,11 @@ type Pool struct {
 	done    bool
 	started time.Time
 	deadline time.Time
+	// selftest facilities
+	xNames    []string // secondary solvers re-deciding every xEvery-th query
+	xEvery    int
+	xStats    map[string]*xStat
+	natSample int // per harness: number of completed paths whose model is also run natively
 }
 
 type Worker struct {
@@ -442,6 +494,8 @@ type Worker struct {
 	trace  bool
 	cacheHits int
 	models    []*cachedModel
+	xsolvers  []*Solver
+	xcount    int
 }
 
 func (w *Worker) push(h *Harness, prefix []Decision) {
@@ -467,6 +521,23 @@ func (w *Worker) resetSolver() {
 		panic(err)
 	}
 	w.solver = s
+	for _, x := range w.xsolvers {
+		x.Close()
+	}
+	w.xsolvers = nil
+	if w.pool != nil {
+		for _, n := range w.pool.xNames {
+			xt := w.timeout
+			if xt > 5*time.Second {
+				xt = 5 * time.Second
+			}
+			x, err := NewSolver(n, xt)
+			if err != nil {
+				panic(err)
+			}
+			w.xsolvers = append(w.xsolvers, x)
+		}
+	}
 }
 
 func (w *Worker) run() {
@@ -474,6 +545,9 @@ func (w *Worker) run() {
 	defer func() {
 		w.resetSolver()
 		w.solver.Close()
+		for _, x := range w.xsolvers {
+			x.Close()
+		}
 	}()
 	p := w.pool
 	for {
@@ -530,6 +604,27 @@ func (w *Worker) runJob(job Job) {
 	in := w.newInterp(h, job.prefix, nil)
 	reason, detail := in.runPath()
 	w.paths++
+	if reason == "ok" && w.pool.natSample > 0 && len(in.failures) == 0 && in.concrete == nil {
+		h.mu.Lock()
+		take := len(h.natSamples) < w.pool.natSample && h.nPaths >= h.natNext
+		if take {
+			h.natNext = h.nPaths + h.nPaths/2 + 1
+		}
+		h.mu.Unlock()
+		if take {
+			if r, m := in.check(nil, in.vars); r == Sat {
+				if m, r = in.repairCRC(nil, m); r == Sat {
+					f := &Failure{Property: h.Prop, Harness: h.Name, Kind: "sample", Model: map[string]uint64{}, Path: append([]Decision(nil), in.path...)}
+					for t, v := range m {
+						f.Model[t.name] = v
+					}
+					h.mu.Lock()
+					h.natSamples = append(h.natSamples, f)
+					h.mu.Unlock()
+				}
+			}
+		}
+	}
 	h.mu.Lock()
 	h.nPaths++
 	h.paths[reason]++
